@@ -417,7 +417,7 @@ fn product(n: usize, scripts: &[Vec<Step>], ids: &[u32], tagged: bool) -> impl I
 pub fn run(ctx: &mut Ctx) {
     ctx.rule = "C15: case = (tags, per-source scripts over {I=item ready, P=pending} + implicit end, tagged-wrapper flag); \
         MergeSource::verif_new over TaggedSource::verif_new is polled to the end with re-polls after Pending, every source poll logged. \
-        Enumerated: all scripts up to a length bound for 1..3(4) sources; random: 1..5 sources, scripts up to 8(12). \
+        Enumerated: all scripts up to length 6/6/5/3 (thorough 6/6/6/4/2) for 1/2/3/4(/5) sources; random: 1..5 sources, scripts up to 8(12). \
         Non-trivial = a source reports the end in a call in which a source positioned after it is polled afterwards \
         (cursor past the removed slot -> cursor fix-up path) while another source still has data. Distinct by case hash."
         .into();
@@ -425,29 +425,39 @@ pub fn run(ctx: &mut Ctx) {
     ctx.assume("multi_connection.rs sources (same cursor algorithm, duplicated) need real TCP/Unix listeners and are not driven");
     let tier = ctx.tier();
     ctx.floor = 200;
-    let ids = [7u32, 3, 11, 5];
+    let ids = [7u32, 3, 11, 5, 2];
+    let s2 = all_scripts(2);
     let s3 = all_scripts(3);
     let s4 = all_scripts(4);
-    let s2 = all_scripts(2);
     let s5 = all_scripts(5);
+    let s6 = all_scripts(6);
+    let empty = ctx.is_replay();
+    let mut go = |ctx: &mut Ctx, name: String, n: usize, scripts: &Vec<Vec<Step>>, tagged: bool| {
+        if empty {
+            ctx.check_all(&name, Vec::<MergeCase>::new(), run_case);
+        } else {
+            ctx.check_all(&name, product(n, scripts, &ids, tagged), run_case);
+        }
+    };
     for tagged in [true, false] {
         let t = if tagged { "tagged" } else { "pretagged" };
-        ctx.check_all(&format!("merge-1src-{t}"), product(1, &s5, &ids, tagged), run_case);
-        ctx.check_all(&format!("merge-2src-{t}"), product(2, &s4, &ids, tagged), run_case);
         match tier {
             Tier::Quick => {
-                ctx.check_all(&format!("merge-3src-{t}"), product(3, if tagged { &s4 } else { &s3 }, &ids, tagged), run_case);
-                if tagged {
-                    ctx.check_all(&format!("merge-4src-{t}"), product(4, &s2, &ids, tagged), run_case);
-                }
+                go(ctx, format!("merge-1src-{t}"), 1, &s6, tagged);
+                go(ctx, format!("merge-2src-{t}"), 2, if tagged { &s6 } else { &s4 }, tagged);
+                go(ctx, format!("merge-3src-{t}"), 3, if tagged { &s5 } else { &s3 }, tagged);
+                go(ctx, format!("merge-4src-{t}"), 4, if tagged { &s3 } else { &s2 }, tagged);
             }
             Tier::Thorough => {
-                ctx.check_all(&format!("merge-3src-{t}"), product(3, if tagged { &s5 } else { &s4 }, &ids, tagged), run_case);
-                ctx.check_all(&format!("merge-4src-{t}"), product(4, &s3, &ids, tagged), run_case);
+                go(ctx, format!("merge-1src-{t}"), 1, &s6, tagged);
+                go(ctx, format!("merge-2src-{t}"), 2, &s6, tagged);
+                go(ctx, format!("merge-3src-{t}"), 3, if tagged { &s6 } else { &s5 }, tagged);
+                go(ctx, format!("merge-4src-{t}"), 4, if tagged { &s4 } else { &s3 }, tagged);
+                go(ctx, format!("merge-5src-{t}"), 5, &s2, tagged);
             }
         }
     }
-    let (cases, maxlen) = tier.pick((60_000u32, 8usize), (1_500_000u32, 12usize));
+    let (cases, maxlen) = tier.pick((400_000u32, 8usize), (6_000_000u32, 12usize));
     let strat = (1usize..=5, any::<bool>()).prop_flat_map(move |(n, tagged)| {
         (
             proptest::collection::vec(
